@@ -161,6 +161,13 @@ def match_finding(pid, v, findings):
             continue
         if 'msg_regex' in f and not re.search(f['msg_regex'], v['msg'], re.S):
             continue
+        if 'msgs_file' in f:
+            # exact messages (one per line) committed next to the findings file
+            if '_msgs' not in f:
+                with open(os.path.join(ROOT, 'findings', f['msgs_file']), encoding='utf-8', errors='replace') as fh:
+                    f['_msgs'] = set(l.rstrip('\n') for l in fh)
+            if v['msg'].replace('\n', '\\n') not in f['_msgs']:
+                continue
         ca = f.get('choices_at')
         if ca is not None:
             ok = True
@@ -250,12 +257,17 @@ def do_check(pid, prop, tier, seed, workdir):
                    'msg': v['msg'], 'kind': v['kind'], 'site': v.get('site', ''), 'property': pid, 'tier': tier}
             path = os.path.join(repdir, '%03d.json' % n)
             json.dump(rec, open(path, 'w'), indent=1)
+            expect_native = {'assert': ('reproduced', 'crash', 'hang'), 'panic': ('reproduced', 'crash'),
+                             'hang': ('hang', 'reproduced'), 'fatal': ('crash', 'hang', 'reproduced')}[v['kind']]
             status, detail = rp.run(path, timeout=prop.get('replay_timeout', 30), tier=tier)
+            # schedule-dependent native confirmations (race detector) get more than one try
+            tries = 1
+            while status not in expect_native and tries < prop.get('replay_retries', 1):
+                status, detail = rp.run(path, timeout=prop.get('replay_timeout', 30), tier=tier)
+                tries += 1
             rec['native'] = status
             rec['native_detail'] = detail[:400]
             json.dump(rec, open(path, 'w'), indent=1)
-            expect_native = {'assert': ('reproduced', 'crash', 'hang'), 'panic': ('reproduced', 'crash'),
-                             'hang': ('hang', 'reproduced'), 'fatal': ('crash', 'hang', 'reproduced')}[v['kind']]
             if status in expect_native:
                 f = match_finding(pid, rec, findings)
                 if f:
@@ -263,7 +275,12 @@ def do_check(pid, prop, tier, seed, workdir):
                 else:
                     confirmed.append((rec, path))
             else:
-                unconfirmed.append((rec, path, status))
+                f = match_finding(pid, rec, findings)
+                if f:
+                    # a listed finding whose native confirmation did not fire in this run
+                    known.append((f, rec, path))
+                else:
+                    unconfirmed.append((rec, path, status))
     # cross-check: replay a sample of passing paths natively (engine vs real build)
     passing_checked, passing_bad = 0, []
     for r in reports:
